@@ -167,12 +167,16 @@ Fixpoint rounds_items (k : nat) (p : path) (e : sub_env) (groups : list nat) : l
   end.
 
 (* --- everything the client receives: publish responses and republished notifications ------------------------------ *)
-Inductive event := EPublish (r : publish_resp) | ERepublish (sub seq : nat).
+(* ERecreate: recreateSubscription of one subscription during a reconnect.  pendingAcks is ONE queue for all subscriptions
+   of the client and recreateSubscription does not touch it: acknowledgements queued for the other subscriptions (and the
+   stale ones of the recreated subscription, which the server answers with BadSubscriptionIDInvalid) stay queued. *)
+Inductive event := EPublish (r : publish_resp) | ERepublish (sub seq : nat) | ERecreate (sub : nat).
 
 Definition ev_step_gen (fixed : bool) (pending : list ack) (e : event) : list ack * option ack :=
   match e with
   | EPublish r => publish_step pending r
   | ERepublish s q => if fixed then republish_step pending s q else republish_step_before_fix pending s q
+  | ERecreate _ => (pending, None)
   end.
 Definition ev_step := ev_step_gen true.
 
